@@ -33,6 +33,120 @@ pub fn in_support(power: f64, y: &[f64]) -> bool {
     }
 }
 
+
+pub const ISO_TIMEOUT_MS: u64 = 3000;
+/// longest run time of an isolated fit that DID return (evidence for the timeout margin)
+pub static MAX_CHILD_MS: std::sync::atomic::AtomicU64 = std::sync::atomic::AtomicU64::new(0);
+
+pub fn needs_isolation(case: &TwCase) -> bool {
+    case.link == "identity" && case.power >= 1.0
+}
+
+pub enum FitRes {
+    Model(TweedieRegressor<f64>),
+    Params(Vec<f64>, f64),
+    ErrRange,
+    ErrArgmin(String),
+    ErrOther(String),
+    Panic(String),
+    Timeout,
+}
+
+fn fit_msg(f: &FitRes) -> Option<String> {
+    match f {
+        FitRes::ErrArgmin(m) | FitRes::ErrOther(m) | FitRes::Panic(m) => Some(m.clone()),
+        _ => None,
+    }
+}
+
+fn build(case: &TwCase) -> (linfa_linear::TweedieRegressorParams<f64>, Dataset<f64, f64, ndarray::Ix1>) {
+    let n = case.x.len();
+    let d = case.x[0].len();
+    let link = match case.link.as_str() {
+        "identity" => Link::Identity,
+        "log" => Link::Log,
+        "logit" => Link::Logit,
+        _ => panic!("bad link"),
+    };
+    let x = Array2::from_shape_fn((n, d), |(i, j)| case.x[i][j]);
+    let y = Array1::from(case.y.clone());
+    let params = TweedieRegressor::params().alpha(case.alpha).power(case.power).link(link).fit_intercept(case.intercept).tol(case.tol).max_iter(case.max_iter);
+    (params, Dataset::new(x, y))
+}
+
+pub fn fit_here(case: &TwCase) -> FitRes {
+    let (params, ds) = build(case);
+    match guarded(|| params.fit(&ds)) {
+        Ok(Ok(m)) => FitRes::Model(m),
+        Ok(Err(LinearError::InvalidTargetRange(_))) => FitRes::ErrRange,
+        Ok(Err(LinearError::Argmin(e))) => FitRes::ErrArgmin(format!("argmin {}", e)),
+        Ok(Err(e)) => FitRes::ErrOther(format!("{}", e)),
+        Err(p) => FitRes::Panic(p),
+    }
+}
+
+/// Child side of the isolated fit: prints one JSON line (floats as bit patterns).
+pub fn child_main(case_json: &str) -> ! {
+    std::panic::set_hook(Box::new(|_| {}));
+    let case: TwCase = serde_json::from_str(case_json).expect("case json");
+    let v = match fit_here(&case) {
+        FitRes::Model(m) => serde_json::json!({"status": "ok", "coef": m.coef.iter().map(|v| v.to_bits()).collect::<Vec<u64>>(), "intercept": m.intercept.to_bits()}),
+        FitRes::ErrRange => serde_json::json!({"status": "err_range"}),
+        FitRes::ErrArgmin(m) => serde_json::json!({"status": "err_argmin", "msg": m}),
+        FitRes::ErrOther(m) => serde_json::json!({"status": "err_other", "msg": m}),
+        FitRes::Panic(m) => serde_json::json!({"status": "panic", "msg": m}),
+        _ => unreachable!(),
+    };
+    println!("{}", v);
+    std::process::exit(0);
+}
+
+pub fn fit_isolated(case: &TwCase) -> FitRes {
+    use std::process::{Command, Stdio};
+    let exe = std::env::current_exe().expect("current exe");
+    let mut child = Command::new(exe)
+        .arg("--fit-one")
+        .arg(serde_json::to_string(case).unwrap())
+        .stdin(Stdio::null())
+        .stdout(Stdio::piped())
+        .stderr(Stdio::null())
+        .spawn()
+        .expect("spawn child");
+    let t0 = std::time::Instant::now();
+    loop {
+        match child.try_wait() {
+            Ok(Some(_)) => break,
+            Ok(None) => {
+                if t0.elapsed().as_millis() as u64 > ISO_TIMEOUT_MS {
+                    let _ = child.kill();
+                    let _ = child.wait();
+                    return FitRes::Timeout;
+                }
+                std::thread::sleep(std::time::Duration::from_micros(500));
+            }
+            Err(e) => panic!("waiting for child: {}", e),
+        }
+    }
+    MAX_CHILD_MS.fetch_max(t0.elapsed().as_millis() as u64, std::sync::atomic::Ordering::Relaxed);
+    let outp = child.wait_with_output().expect("child output");
+    let txt = String::from_utf8_lossy(&outp.stdout);
+    let v: serde_json::Value = match serde_json::from_str(txt.trim()) {
+        Ok(v) => v,
+        Err(_) => return FitRes::Panic(format!("child produced no result (exit {:?})", outp.status.code())),
+    };
+    let msg = v.get("msg").and_then(|m| m.as_str()).unwrap_or("").to_string();
+    match v.get("status").and_then(|s| s.as_str()) {
+        Some("ok") => {
+            let coef: Vec<f64> = v["coef"].as_array().unwrap().iter().map(|b| f64::from_bits(b.as_u64().unwrap())).collect();
+            FitRes::Params(coef, f64::from_bits(v["intercept"].as_u64().unwrap()))
+        }
+        Some("err_range") => FitRes::ErrRange,
+        Some("err_argmin") => FitRes::ErrArgmin(msg),
+        Some("err_other") => FitRes::ErrOther(msg),
+        _ => FitRes::Panic(msg),
+    }
+}
+
 fn power_class(p: f64) -> &'static str {
     if p == 0.0 {
         "normal"
@@ -52,36 +166,27 @@ pub fn run(case: &TwCase, viols: &mut Vec<Violation>) -> Out {
     let n = case.x.len();
     let d = case.x[0].len();
     let cj = || serde_json::to_value(crate::Case::Tweedie(case.clone())).unwrap();
-    let (link, rlink) = match case.link.as_str() {
-        "identity" => (Link::Identity, RefLink::Identity),
-        "log" => (Link::Log, RefLink::Log),
-        "logit" => (Link::Logit, RefLink::Logit),
+    let rlink = match case.link.as_str() {
+        "identity" => RefLink::Identity,
+        "log" => RefLink::Log,
+        "logit" => RefLink::Logit,
         _ => panic!("bad link"),
     };
-    let x = Array2::from_shape_fn((n, d), |(i, j)| case.x[i][j]);
-    let y = Array1::from(case.y.clone());
-    let ds = Dataset::new(x, y);
-    let params = TweedieRegressor::params()
-        .alpha(case.alpha)
-        .power(case.power)
-        .link(link)
-        .fit_intercept(case.intercept)
-        .tol(case.tol)
-        .max_iter(case.max_iter);
 
-    // ---- targets outside the support must be rejected ----
+    // ---- targets outside the support must be rejected (the range test precedes the solver: in-process) ----
     if !in_support(case.power, &case.y) {
         out.nontrivial = true;
         out.tag("tweedie_out_of_support_cases");
-        match guarded(|| params.fit(&ds)) {
-            Ok(Err(LinearError::InvalidTargetRange(_))) => {}
-            Ok(Err(e)) => viols.push(Violation::new("tweedie.fit.out_of_support_wrong_error", format!("targets {:?} outside the support of power {}: expected InvalidTargetRange, got Err({})", case.y, case.power, e), cj())),
-            Ok(Ok(m)) => viols.push(Violation::new(
+        match fit_here(case) {
+            FitRes::ErrRange => {}
+            FitRes::ErrArgmin(e) | FitRes::ErrOther(e) => viols.push(Violation::new("tweedie.fit.out_of_support_wrong_error", format!("targets {:?} outside the support of power {}: expected InvalidTargetRange, got Err({})", case.y, case.power, e), cj())),
+            FitRes::Model(m) => viols.push(Violation::new(
                 "tweedie.fit.out_of_support_accepted",
                 format!("targets {:?} outside the support of power {} were accepted (coef {:?}, intercept {})", case.y, case.power, m.coef.to_vec(), m.intercept),
                 cj(),
             )),
-            Err(p) => viols.push(Violation::new("tweedie.fit.out_of_support_panic", format!("targets {:?} outside the support of power {}: panic {}", case.y, case.power, p), cj())),
+            FitRes::Panic(p) => viols.push(Violation::new("tweedie.fit.out_of_support_panic", format!("targets {:?} outside the support of power {}: panic {}", case.y, case.power, p), cj())),
+            _ => unreachable!(),
         }
         return out;
     }
@@ -100,9 +205,7 @@ pub fn run(case: &TwCase, viols: &mut Vec<Violation>) -> Out {
         out.tag("tweedie_start_outside_objective_domain_out_of_domain");
         return out;
     }
-    let t0=std::time::Instant::now();
     let own = refopt::lm_newton(&fgh, &start, 1e-10, 300);
-    crate::T_OWN.fetch_add(t0.elapsed().as_micros() as u64, std::sync::atomic::Ordering::Relaxed);crate::T_OWN_IT.fetch_add(own.iters as u64, std::sync::atomic::Ordering::Relaxed);
     let eta_max = case.x.iter().map(|xi| refopt::bin_score(xi, &own.x, case.intercept).abs()).fold(0.0f64, f64::max);
     if !own.converged || eta_max > 30.0 {
         out.ood = true;
@@ -111,13 +214,29 @@ pub fn run(case: &TwCase, viols: &mut Vec<Violation>) -> Out {
     }
 
     // ---- fit with the real code ----
-    let t0=std::time::Instant::now();
-    let fitres = guarded(|| params.fit(&ds));
-    let el=t0.elapsed().as_micros() as u64; if el>50000 {eprintln!("SLOW {} us p={} link={} a={} i={} y={:?}", el, case.power, case.link, case.alpha, case.intercept, case.y);}
-    crate::T_FIT.fetch_add(el, std::sync::atomic::Ordering::Relaxed);
-    let model = match fitres {
-        Ok(Ok(m)) => m,
-        Ok(Err(e)) => {
+    // identity link with a positive-support distribution: the deviance is undefined for linear predictors <= 0
+    // and the unconstrained line search may step there. Observed on the unchanged tree: Err(NaN) or an endless
+    // loop inside the line search. These fits run in a child process with a timeout; an honest Err from the
+    // solver is accepted there, a fit that does not return is a violation.
+    let isolated = needs_isolation(case);
+    let fit = if isolated { fit_isolated(case) } else { fit_here(case) };
+    let (model, w, b) = match fit {
+        FitRes::Model(m) => {
+            let w = m.coef.to_vec();
+            let b = m.intercept;
+            (Some(m), w, b)
+        }
+        FitRes::Params(w, b) => (None, w, b),
+        FitRes::ErrArgmin(e) if isolated => {
+            let _ = e;
+            out.tag("tweedie_identity_link_solver_error_accepted");
+            return out;
+        }
+        FitRes::ErrRange | FitRes::ErrArgmin(_) | FitRes::ErrOther(_) => {
+            let e = match fit_msg(&fit) {
+                Some(m) => m,
+                None => "InvalidTargetRange".to_string(),
+            };
             viols.push(Violation::new(
                 format!("tweedie.fit.unexpected_error.{}.{}", power_class(case.power), case.link),
                 format!("fit with targets inside the support returned Err({}) (own Newton finds a stationary point at {:?})", e, own.x),
@@ -125,13 +244,22 @@ pub fn run(case: &TwCase, viols: &mut Vec<Violation>) -> Out {
             ));
             return out;
         }
-        Err(p) => {
+        FitRes::Panic(p) => {
             viols.push(Violation::new("tweedie.fit.panic", format!("fit with targets inside the support panicked: {}", p), cj()));
             return out;
         }
+        FitRes::Timeout => {
+            viols.push(Violation::new(
+                format!("tweedie.fit.does_not_terminate.{}.{}", power_class(case.power), case.link),
+                format!(
+                    "fit (max_iter {}) did not return within {} ms in a child process (healthy fits of this size take < 50 ms); targets are inside the support and the own Newton solve finds a stationary point at {:?}",
+                    case.max_iter, ISO_TIMEOUT_MS, own.x
+                ),
+                cj(),
+            ));
+            return out;
+        }
     };
-    let w: Vec<f64> = model.coef.to_vec();
-    let b = model.intercept;
     if w.len() != d {
         viols.push(Violation::new("tweedie.coef.wrong_length", format!("{} coefficients for {} features", w.len(), d), cj()));
         return out;
@@ -180,7 +308,11 @@ pub fn run(case: &TwCase, viols: &mut Vec<Violation>) -> Out {
         }
     }
 
-    // ---- predictions ----
+    // ---- predictions (in-process fits only) ----
+    let model = match model {
+        Some(m) => m,
+        None => return out,
+    };
     let mut queries: Vec<Vec<f64>> = case.x.clone();
     queries.push(vec![0.0; d]);
     let ww: f64 = w.iter().map(|v| v * v).sum();
